@@ -715,6 +715,34 @@ func KVAlphabet() []Op {
 			// PreserveExpiry when there was no live document: the expiry is spec-silent, but the result is a live document
 			return Expect{Succeeds: Yes, OutcomeProp: "C06", Live: Yes, Body: J(`{"v":"resp"}`), XSet: true, X: map[string]string{"_t": `{"by":"resp"}`}, XNamed: map[string]bool{"_t": true}}
 		}})
+	macroOpts := func() *sgbucket.MutateInOptions {
+		return &sgbucket.MutateInOptions{MacroExpansion: []sgbucket.MacroExpansionSpec{
+			sgbucket.NewMacroExpansionSpec("_s.cas", sgbucket.MacroCas), sgbucket.NewMacroExpansionSpec("_s.crc", sgbucket.MacroCrc32c)}}
+	}
+	macroVals := xs("_s", `{"by":"mac","cas":"x","crc":"y"}`)
+	add(Op{Name: "WriteResurrectionWithXattrs/macros", EP: "WriteResurrectionWithXattrs", Tier: 0,
+		Run: func(c *rosmar.Collection, env Env) Result {
+			cas, err := c.WriteResurrectionWithXattrs(ctx, "k", 0, J(`{"v":"resm"}`), macroVals, macroOpts())
+			r := resErr(err)
+			r.Cas = cas
+			return r
+		},
+		Spec: func(pre Doc, env Env) Expect {
+			if pre.Live {
+				return Expect{Succeeds: No, OutcomeProp: "C06", FailClasses: []string{"keyexists", "casmismatch"}}
+			}
+			return Expect{Succeeds: Yes, OutcomeProp: "C06", Live: Yes, Body: J(`{"v":"resm"}`), XSet: true, X: xss(macroVals), XNamed: named(macroVals), ExpSet: true, Exp: 0, Macros: map[string]string{"_s": "cas+crc"}}
+		}})
+	add(Op{Name: "WriteTombstoneWithXattrs/macros/C", EP: "WriteTombstoneWithXattrs/macros", Tier: 0,
+		Run: func(c *rosmar.Collection, env Env) Result {
+			cas, err := c.WriteTombstoneWithXattrs(ctx, "k", 0, env.Cas("C"), macroVals, nil, false, macroOpts())
+			r := resErr(err)
+			r.Cas = cas
+			return r
+		},
+		Spec: func(pre Doc, env Env) Expect {
+			return Expect{Succeeds: Yes, OutcomeProp: "C07", Live: No, XSet: true, X: withX(sysOnly(pre.X), xss(macroVals), nil), XNamed: named(macroVals), ExpSet: true, Exp: 0, Macros: map[string]string{"_s": "cas+crc"}}
+		}})
 	resurrect("WriteResurrectionWithXattrs/_s", xs("_s", `{"by":"res"}`), 0, 0)
 	resurrect("WriteResurrectionWithXattrs/none", nil, relExp, 0)
 
@@ -772,6 +800,16 @@ func KVAlphabet() []Op {
 			x.Live = No
 		}
 		return x
+	})
+	wux("macros", 0, func(_ *int, _ []byte, _ map[string][]byte, _ uint64) (sgbucket.UpdatedDoc, error) {
+		return sgbucket.UpdatedDoc{Doc: wuxBody, Xattrs: xs("_s", `{"by":"wuxm","cas":"x","crc":"y"}`),
+			Spec: []sgbucket.MacroExpansionSpec{sgbucket.NewMacroExpansionSpec("_s.cas", sgbucket.MacroCas), sgbucket.NewMacroExpansionSpec("_s.crc", sgbucket.MacroCrc32c)}}, nil
+	}, func(pre Doc, env Env) Expect {
+		base := map[string]string{}
+		if pre.Live {
+			base = pre.X
+		}
+		return Expect{Succeeds: Yes, OutcomeProp: "C07", Live: Yes, Body: wuxBody, XSet: true, X: withX(base, map[string]string{"_s": `{"by":"wuxm","cas":"x","crc":"y"}`}, nil), XNamed: map[string]bool{"_s": true}, ExpSet: true, Exp: 0, Macros: map[string]string{"_s": "cas+crc"}}
 	})
 	wux("error", 1, func(_ *int, _ []byte, _ map[string][]byte, _ uint64) (sgbucket.UpdatedDoc, error) {
 		return sgbucket.UpdatedDoc{Doc: wuxBody, Xattrs: wuxVals}, errCallback
